@@ -64,6 +64,11 @@ func (concEngine) Gen(prop string, seed uint64, tier string) *Spec {
 	if prop == "C06" {
 		spec.Knobs["recycle"] = 1
 	}
+	// allocators that hand out the lowest free number (a just-freed block or inode
+	// number is reused at once, also by another client) in a third of the runs
+	if rng.Chance(0.33) {
+		spec.Knobs["alloc_lowest"] = 1
+	}
 	// restart before the concurrent phase: cold caches, and the allocator hands out low
 	// inode numbers again, so objects created by the clients have smaller numbers than
 	// their parent directories (the abort-and-relock paths)
@@ -257,6 +262,10 @@ func (concEngine) Gen(prop string, seed uint64, tier string) *Spec {
 				}
 			case 3:
 				op = Op{K: "write", H: fileSlot(), Off: uint64(rng.Intn(3)) * 2048, Len: uint64(1 + rng.Intn(5000)), Pat: pat, How: rng.Intn(3)}
+				if rng.Chance(0.3) {
+					// a block the file does not have yet: every such write allocates
+					op.Off = uint64(rng.Intn(12)) * 4096
+				}
 				if rng.Chance(0.05) {
 					// a write of (nearly) the announced maximum: a transaction that fills half of the log
 					op.Off = uint64(rng.Intn(3)) * 300 * 4096
@@ -560,6 +569,8 @@ func (x *concRun) main() {
 	x.setup[slotF2] = x.setupCall(&In{K: "create", Obj: x.setup[slotD2], Name: "b", How: 1}).H
 	x.setup[slotSub] = x.setupCall(&In{K: "mkdir", Obj: x.setup[slotD1], Name: "sub"}).H
 	x.setupCall(&In{K: "write", Obj: x.setup[slotF1], Off: 0, Count: 3000, Data: patData(900, 0, 3000), How: 2})
+	// (every shared file owns blocks: a rename over it or its removal frees something)
+	x.setupCall(&In{K: "write", Obj: x.setup[slotF2], Off: 0, Count: 5000, Data: patData(899, 0, 5000), How: 2})
 	big := x.setupCall(&In{K: "create", Obj: rootH, Name: "big", How: 1})
 	x.setup[slotBig] = big.H
 	if spec.knob("big", 0) != 0 {
@@ -612,6 +623,10 @@ func (x *concRun) main() {
 		x.m.VerfSeen = false
 	}
 	init := x.m.Clone()
+	if spec.knob("alloc_lowest", 0) != 0 {
+		simrt.AllocLowest = true
+		defer func() { simrt.AllocLowest = false }()
+	}
 	crashc := spec.knob("crashc", 0) != 0
 	if crashc {
 		simrt.Quiesce()
